@@ -28,6 +28,11 @@ def run(cases, oracle, extra=None):
                 probs, nt = oracle(desc, op, exact)
             except P.LibError as e:
                 probs, nt = [('library-raises', f'{e}\n{e.tb}')], False
+            except Exception as e:  # noqa: BLE001
+                if not P.from_library(e):
+                    raise
+                err = P.LibError('operator method', e)
+                probs, nt = [('library-raises', f'{err}\n{err.tb}')], False
             for kind, detail in probs:
                 violations.append({'kind': kind, 'case': desc, 'detail': detail})
             if nt:
